@@ -168,7 +168,7 @@ var styles = []shadow.StyleD{
 	{Fg: tcell.ColorBlack, Bg: tcell.ColorNone, UL: 2, ULColor: tcell.ColorReset},              // 8
 	{Fg: tcell.ColorLime, UL: 5, ULColor: tcell.PaletteColor(9)},                              // 9
 	{Fg: tcell.PaletteColor(255), Bg: tcell.NewRGBColor(255, 255, 255), UL: 4, ULColor: tcell.PaletteColor(255)}, // 10 extreme values
-	{Fg: tcell.Color(1000) | tcell.ColorValid, Bg: tcell.ColorSpecial | 99, URL: "http://h/p?a=1&b=%20;c", URLI: "x;y:z"}, // 11 odd colours, url with ; and %
+	{Fg: tcell.Color(1000) | tcell.ColorValid, Bg: tcell.ColorSpecial | 99, URL: "http://h/p?a=1&b=%20;c", URLI: "x-y_z.1"}, // 11 odd colours, url with ; and %
 	{Fg: tcell.NewRGBColor(0, 0, 0), Attrs: tcell.AttrBold | tcell.AttrBlink | tcell.AttrReverse | tcell.AttrDim | tcell.AttrItalic | tcell.AttrStrikeThrough, UL: 3, ULColor: tcell.ColorReset}, // 12 everything
 	{URL: "x", URLI: ""}, // 13
 }
@@ -346,11 +346,13 @@ func (d *dsys) Key() string {
 		}
 	}
 	sb.WriteString("#")
+	// the whole reference model is part of the key: two histories merge only if the
+	// implementation state AND the model state agree
 	for i := range d.sh.Cells {
 		c := &d.sh.Cells[i]
-		fmt.Fprintf(&sb, "%v%v;", c.ChangedSince, c.Lock)
+		fmt.Fprintf(&sb, "%v%v%d%v%v;", c.ChangedSince, c.Lock, c.R, c.Comb, c.S)
 	}
-	fmt.Fprintf(&sb, "%v%v%d", d.sh.AllChanged, d.sh.Default, d.sh.CursorStyle)
+	fmt.Fprintf(&sb, "%v%v%d,%d,%d,%v,%dx%d,%q", d.sh.AllChanged, d.sh.Default, d.sh.CursorStyle, d.sh.CursorX, d.sh.CursorY, d.sh.CursorColor, d.sh.W, d.sh.H, d.curCol)
 	return sb.String()
 }
 
